@@ -248,11 +248,16 @@ func (s *EncryptionSession) In(seqNum uint32, prio bool) (
 	}
 
 	// Check if we need to rollover key.
-	if sh.RolloverRequired(seqNum) {
-		if prio {
+	if prio {
+		// The priority sequence never rolls the key over on its own:
+		// refuse the frame without touching the receive window.
+		if sh.rolloverIndicated(seqNum) {
 			return nil, errors.New("prio sequence handler requested key rollover")
 		}
-		s.prioSeqHandler.Reset()
+	} else if sh.RolloverRequired(seqNum) {
+		// A new incoming key restarts the priority receive window.
+		// The outgoing priority sequence belongs to the (unchanged) outgoing key.
+		s.prioSeqHandler.ResetIn()
 		if err := s.rolloverInKey(); err != nil {
 			return nil, fmt.Errorf("rollover in key: %w", err)
 		}
@@ -289,7 +294,9 @@ func (s *EncryptionSession) Out(prio bool) (
 		if prio {
 			return 0, 0, 0, nil, errors.New("prio sequence handler requested key rollover")
 		}
-		s.prioSeqHandler.Reset()
+		// A new outgoing key restarts the outgoing priority sequence.
+		// The priority receive window belongs to the (unchanged) incoming key.
+		s.prioSeqHandler.ResetOut()
 		if err := s.rolloverOutKey(); err != nil {
 			return 0, 0, 0, nil, fmt.Errorf("rollover in key: %w", err)
 		}
@@ -398,9 +405,33 @@ func (sh *SequenceHandler) RolloverRequired(seqNum uint32) bool {
 	}
 }
 
+// rolloverIndicated reports whether the given sequence number would trigger a
+// key rollover, without changing any state.
+func (sh *SequenceHandler) rolloverIndicated(seqNum uint32) bool {
+	sh.lock.Lock()
+	defer sh.lock.Unlock()
+
+	return sh.highest >= rolloverUpperBound && seqNum <= rolloverLowerBound
+}
+
+// ResetIn resets the receive window.
+// This is used for the priority sequence when the incoming key is rolled over.
+func (sh *SequenceHandler) ResetIn() {
+	sh.lock.Lock()
+	defer sh.lock.Unlock()
+
+	sh.highest = 0
+	sh.bitMap = 0
+}
+
+// ResetOut resets the outgoing sequence counter.
+// This is used for the priority sequence when the outgoing key is rolled over.
+func (sh *SequenceHandler) ResetOut() {
+	sh.outSeq.Store(0)
+}
+
 // Reset resets the sequence counters to zero.
-// This is only used for resetting the priority sequence,
-// when the regular triggered a key rollover.
+// This is only used when both keys are replaced.
 func (sh *SequenceHandler) Reset() {
 	sh.lock.Lock()
 	defer sh.lock.Unlock()
